@@ -10,6 +10,8 @@ import os, re, shutil, time
 
 def _nontrivial(line):
     f = line.split(" ; ")[0].split()
+    if f and f[0] == "C09Q":
+        return True                               # a history of several requests
     if len(f) < 11:
         return False
     # something a well-behaved client would not send as is: any header, query, body or a path beyond "/"
